@@ -142,12 +142,28 @@ class _Call:
             raise r.exc
         return r
 
-    def next_completed(self):
-        """(index, result) of the next task in completion order"""
-        i = self.order[self.cursor] if self.pending() else None
-        if i is None:
+
+
+class _Iter:
+    """IMapIterator look-alike: like the real one it stays usable after delivering a job's exception"""
+
+    def __init__(self, call, ordered):
+        self._call = call
+        self._ordered = ordered
+        self._i = 0
+
+    def __iter__(self):
+        return self
+
+    def __next__(self, timeout=None):
+        call = self._call
+        if self._i >= call.n:
             raise StopIteration
-        return i, self.result_of(i)
+        i = self._i if self._ordered else call.order[self._i]
+        self._i += 1
+        return call.result_of(i)
+
+    next = __next__
 
 
 class _Async:
@@ -222,20 +238,10 @@ class ScheduledPool:
 
     # -- the Pool API
     def imap_unordered(self, func, iterable, chunksize=1):
-        call = self._call('imap_unordered', func, iterable)
-
-        def gen():
-            while call.pending():
-                yield call.next_completed()[1]
-        return gen()
+        return _Iter(self._call('imap_unordered', func, iterable), ordered=False)
 
     def imap(self, func, iterable, chunksize=1):
-        call = self._call('imap', func, iterable)
-
-        def gen():
-            for i in range(call.n):
-                yield call.result_of(i)
-        return gen()
+        return _Iter(self._call('imap', func, iterable), ordered=True)
 
     def map(self, func, iterable, chunksize=None):
         call = self._call('map', func, iterable)
